@@ -15,3 +15,19 @@ for r in rows:
     print("| %s | %s | %s | %s | %s |" % r)
 print()
 print("%d seeds: %d detected, %d missed" % (len(rows), sum(1 for r in rows if r[3] == "detected"), sum(1 for r in rows if r[3] == "missed")))
+
+# also refresh the table inside DESIGN.md when called with --write
+import sys
+if "--write" in sys.argv:
+    import io, contextlib
+    lines = ["| seed | property | needs, to manifest | quick check | first signatures |", "|---|---|---|---|---|"]
+    for r in rows:
+        lines.append("| %s | %s | %s | %s | %s |" % tuple(str(x).replace("|", "/") for x in r))
+    lines.append("")
+    lines.append("%d seeds confirmed: %d detected by the quick check, %d missed." % (
+        len(rows), sum(1 for r in rows if r[3] == "detected"), sum(1 for r in rows if r[3] == "missed")))
+    p = os.path.join(HERE, "DESIGN.md")
+    s = open(p).read()
+    a, b = s.index("<!-- SEEDTABLE BEGIN -->"), s.index("<!-- SEEDTABLE END -->")
+    s = s[:a] + "<!-- SEEDTABLE BEGIN -->\n" + "\n".join(lines) + "\n" + s[b:]
+    open(p, "w").write(s)
